@@ -150,7 +150,7 @@ def _install_pulse_modules(defs_a, defs_b):
         sys.modules[name] = m
 
 
-def c14_gatesets(inj: int, ma: int, mb: int, nargs: int, other: bool) -> str:
+def c14_gatesets(inj: int, ma: int, mb: int, nargs: int, other: bool, as_list: bool = False) -> str:
     """Gate gx is defined (with arity inj-1 / ma-1 / mb-1, 0 meaning 'not defined') by the injected set, by
     the earlier import A and by the later import B.  Precedence injected > later import > earlier import
     decides which arity a call must have; with a native gate set in force an undefined gate is rejected."""
@@ -171,6 +171,8 @@ def c14_gatesets(inj: int, ma: int, mb: int, nargs: int, other: bool) -> str:
     injected = None
     if inj:
         injected = {"gx": gd(inj - 1, "i")}
+        if as_list:
+            injected = list(injected.values())
     _install_pulse_modules(da, db)
     name = "gy" if other else "gx"
     sx = ["circuit", ["usepulses", "vf_pulses_a", "*"], ["usepulses", "vf_pulses_b", "*"], ["register", "r", 3],
